@@ -229,6 +229,20 @@ CHECKS['C13'] = dict(
          'bool: both loads fail or both return equal values.',
     design='4 C13')
 
+CHECKS['C12'] = dict(
+    technique='Hypothesis-generated differential testing across source kinds '
+              '(str, Path, text stream, StringIO, binary stream, BytesIO) and '
+              'sink kinds (file name, Path, text stream, StringIO): outcome / '
+              'byte equality as the oracle',
+    text='Generated (model, document) pairs incl. invalid documents, multi-'
+         'line block/literal/quoted re-serialisations, CRLF and CR line ends, '
+         'BOM, NEL, non-ASCII comments and arbitrary UTF-8 text are loaded '
+         'from six source kinds: all give structurally equal values or the '
+         'same error class citing the same (line, column) set. Generated '
+         '(dumper kind, value, indent, ensure_ascii) cases are written to four '
+         'sink kinds: the bytes equal dumps(...) encoded as UTF-8.',
+    design='4 C12')
+
 NOT_YET = 'check not built yet in this session (work in progress)'
 
 
